@@ -86,6 +86,10 @@ fn cmp_res(what: &str, ctx: &str, got: Result<Zoned, jiff::Error>, want: &Res, z
             if let Err(e) = gen::ts_sane(g.timestamp()) {
                 fail!(format!("{what}-incoherent-timestamp"), "{ctx}: {what}: {e}");
             }
+            // the value handed back is a zoned datetime like any other: its civil view and
+            // offset are those of its instant (the next addition starts from them)
+            let own = g.time_zone().to_offset(g.timestamp());
+            ensure!(g.offset() == own && g.datetime() == own.to_datetime(g.timestamp()), format!("{what}-civil-view-inconsistent"), "{ctx}: {what} = {g}: reports offset {} and civil time {}, but its instant is {} at offset {own}", g.offset(), g.datetime(), own.to_datetime(g.timestamp()));
             Ok(())
         }
         (Err(_), Res::Err) => Ok(()),
@@ -387,6 +391,16 @@ fn test_day(c: &ZDay, cx: &mut Cx) -> CaseResult {
     cmp_res("tomorrow", &ctx, zdt.tomorrow(), &wt, &z, cx)?;
     let wy = rz::zoned_add(&z.rz, ns, &one.negated());
     cmp_res("yesterday", &ctx, zdt.yesterday(), &wy, &z, cx)?;
+    // arithmetic continues correctly from a value obtained by navigation
+    for (what, nav) in [("tomorrow", zdt.tomorrow()), ("yesterday", zdt.yesterday()), ("start_of_day", zdt.start_of_day())] {
+        if let Ok(v) = nav {
+            let from = v.timestamp().as_nanosecond();
+            for sp in [&one, &one.negated()] {
+                let want = rz::zoned_add(&z.rz, from, sp);
+                cmp_res(&format!("{what}-then-add"), &format!("{ctx} -> {what} = {v}, then {sp:?}"), v.checked_add(sp.to_span()), &want, &z, cx)?;
+            }
+        }
+    }
     Ok(())
 }
 
